@@ -20,7 +20,7 @@ RULE = ('operations over a universe of 16 rules (shared and splitting prefixes, 
         'history: probes on ~30 paths x 2 verbs + names + rules + routes + WSGI hook traces, real vs freshly built. Non-trivial = the history '
         'contains a removal or a rejected operation; distinct = distinct history.')
 PYOPT = {'quick': 1, 'thorough': 1}     # one unit of every kind is also served by an interpreter started with -O (assert statements compiled out)
-REQUIRED = ['units_run_under_python_-O', 'wsgi_probes_below_a_mount_point', 'op_add_method_on_the_route_object', 'scripted_histories', 'op_add_method_list', 'histories', 'ops_applied', 'ops_rejected', 'resolve_probes', 'name_probes', 'wsgi_probes', 'hook_firings_compared', 'structure_checks',
+REQUIRED = ['units_run_under_python_-O', 'scoped_404_reference_checked', 'op_add_scoped_404_handler', 'scoped_404_handler_calls_compared', 'wsgi_probes_below_a_mount_point', 'op_add_method_on_the_route_object', 'scripted_histories', 'op_add_method_list', 'histories', 'ops_applied', 'ops_rejected', 'resolve_probes', 'name_probes', 'wsgi_probes', 'hook_firings_compared', 'structure_checks',
             'op_add', 'op_remove', 'op_remove_name', 'op_remove_prefix', 'op_add_hook', 'op_remove_hook', 'op_overwrite', 'rejected_method_clash',
             'rejected_name_clash', 'hook_reference_checked', 'removed_then_probed', 'hook_only_prefix_probed']
 EXHAUSTIVE = {'quick': True, 'thorough': True, 'quick_note': 'all histories of length <= 2 over the 76-operation alphabet',
@@ -58,7 +58,8 @@ SEL1, SEL2, SEL0 = '/s/<v.rex((a+)|(b+))[1]>', '/s/<v.rex((a+)|(b+))[2]>', '/s/<
 FAMILIES = [{'/a/<x>', '/a/<x>/c', '/a/<n:int>'}, {'/b/<p:path>', '/b/<p:path>/end'}]
 # the hook on the wildcard position spells the wildcard differently from the routes on it (`<w>` / `<x>`): names belong to rules
 HOOKS = {'/': '', '/a': 'a', '/a/<w>': 'a/' + W, '/h': 'h', '/ab': 'ab', '/zz': 'zz', '/a/b': 'a/b'}
-EXTRA_PATHS = ['/s/ab', '/s/c', '/s/b', '/s', '/i/5', '/i/abc', '/i/abc/e', '/i/5.json', '/i/7/e', '/', '/a/', '/abcd', '/a/5/c', '/a/b/c', '/zz', '/zz/top', '/h', '/h/z', '/b/end', '/b', '/x/d', '/a/b/', '/A', '/a//c', '/ab/']
+HOOKS_404 = ['/a', '/h', '/zz', '/a/b']
+EXTRA_PATHS = ['/a/nothing/here', '/h/zz/top', '/a/b/c/d', '/s/ab', '/s/c', '/s/b', '/s', '/i/5', '/i/abc', '/i/abc/e', '/i/5.json', '/i/7/e', '/', '/a/', '/abcd', '/a/5/c', '/a/b/c', '/zz', '/zz/top', '/h', '/h/z', '/b/end', '/b', '/x/d', '/a/b/', '/A', '/a//c', '/ab/']
 PREFIXES = ['/a*', '/a/*', '/h/*', '/q*', '/a/b*', '/s/*']
 
 
@@ -91,6 +92,9 @@ def alphabet():
     for h in HOOKS:
         ops.append(('add_hook', h))
         ops.append(('remove_hook', h))
+    # the second kind of route hook: a not-found handler scoped to a prefix (app.error(404, rule=...))
+    for h in HOOKS_404:
+        ops.append(('add_404', h))
     return ops
 
 
@@ -103,6 +107,7 @@ class Sys:
         self.routes = {}       # rule -> {'methods': {M: hid}, 'names': set}
         self.names = {}        # name -> rule
         self.hooks = {}        # hook rule -> hook id
+        self.hooks404 = {}     # hook rule -> id of the scoped not-found handler
         self.unspec = set()    # hook rules whose state is unspecified (under a removed prefix)
         self.unspec_ids = set()
         self.n = 0
@@ -137,6 +142,10 @@ class Sys:
                 self.n += 1
                 kid = 'k%d' % self.n
                 app.on_route(op[1], make_hook(kid, self.log))
+            elif kind == 'add_404':
+                self.n += 1
+                kid = 'p%d' % self.n
+                app.error(404, rule=op[1])(make_404(kid, self.log))
             elif kind == 'remove_hook':
                 app.remove_route_hook(op[1])
             out = 'ok'
@@ -234,6 +243,9 @@ class Sys:
                 if pat.startswith(pre) and h in self.hooks:
                     self.unspec.add(h)
                     self.unspec_ids.add(self.hooks.pop(h))
+                if pat.startswith(pre) and h in self.hooks404:
+                    self.unspec.add(h)
+                    self.unspec_ids.add(self.hooks404.pop(h))
         elif kind == 'add_hook':
             ctx.count('op_add_hook')
             if ok:
@@ -243,11 +255,21 @@ class Sys:
                 ctx.count('ops_rejected')
                 if not (op[1] == '/a/<w>' and out == 'raised:RadiDictKeyError'):
                     ctx.violation(f'add_hook-rejected-without-reason:{out}', f'{op}', None)
+        elif kind == 'add_404':
+            ctx.count('op_add_scoped_404_handler')
+            if ok:
+                self.hooks404[op[1]] = kid
+                if op[1] not in self.hooks:
+                    self.unspec.discard(op[1])
+            else:
+                ctx.count('ops_rejected')
+                ctx.violation(f'add_hook-rejected-without-reason:{out}', f'{op}', None)
         elif kind == 'remove_hook':
             ctx.count('op_remove_hook')
             if not ok:
                 ctx.violation(f'remove_hook-raises:{out}', f'{op}', None)
             self.hooks.pop(op[1], None)
+            self.hooks404.pop(op[1], None)      # a hook position is removed as a whole
             self.unspec.discard(op[1])
             self.ever_removed = True
 
@@ -267,6 +289,8 @@ class Sys:
                 app.route(rule, m0, make_handler(h0, f.log), name=n, overwrite=True)
         for h, kid in self.hooks.items():
             app.on_route(h, make_hook(kid, f.log))
+        for h, kid in self.hooks404.items():
+            app.error(404, rule=h)(make_404(kid, f.log))
         return f
 
 
@@ -282,6 +306,14 @@ def make_handler(hid, log):
 def make_hook(kid, log):
     def k(prefix):
         log.append(('hook', kid, prefix))
+    k.kid = kid
+    return k
+
+
+def make_404(kid, log):
+    def k(prefix, params):
+        log.append(('scoped-404', kid, prefix, tuple(params)))
+        return 'scoped-404-' + kid
     k.kid = kid
     return k
 
@@ -334,17 +366,28 @@ def resolve_answer(app, path, verb):
     ep, err = app.router.resolve(path, [verb, 'ANY'])
     if ep:
         meth, params, hooks = ep
-        return ('route', getattr(meth.handler, 'hid', '?'), tuple(sorted(params.items())),
-                tuple((pos, getattr(h[0], 'kid', None) if h else None) for pos, h in hooks))
+        return ('route', getattr(meth.handler, 'hid', '?'), tuple(sorted(params.items())), _hook_ids(hooks))
     if err[0] == 405:
         return ('405', err[2])
-    return ('404',)
+    extra = err[2] if len(err) > 2 and isinstance(err[2], dict) else {}
+    return ('404', None, tuple(extra.get('param_values', ())), _hook_ids(extra.get('hooks', ())))
+
+
+def _hook_ids(hooks):
+    """(position, id of the simple hook, id of the scoped not-found handler) per hook position on the way"""
+    return tuple((pos, getattr(h[0], 'kid', None) if h else None, getattr(h[1], 'kid', None) if h and len(h) > 1 else None) for pos, h in hooks)
 
 
 def filt_hooks(ans, unspec_ids):
-    if ans[0] != 'route':
+    if ans[0] not in ('route', '404'):
         return ans
-    return ans[:3] + (tuple(h for h in ans[3] if h[1] not in unspec_ids and h[1] is not None),)
+    hs = []
+    for pos, kid, pid in ans[3]:
+        kid = None if kid in unspec_ids else kid
+        pid = None if pid in unspec_ids else pid
+        if kid is not None or pid is not None:
+            hs.append((pos, kid, pid))
+    return ans[:3] + (tuple(hs),)
 
 
 def probe_paths():
@@ -401,6 +444,8 @@ def compare(ctx, real, hist, tag):
                     sig = 'resolve-differs-from-fresh-router:params'
                 elif a[0] == 'route':
                     sig = 'resolve-differs-from-fresh-router:hooks'
+                elif a[0] == '404':
+                    sig = 'not-found-answer-differs-from-fresh-router:' + ('hooks' if a[3] != b[3] else 'collected-values')
                 else:
                     sig = 'resolve-differs-from-fresh-router:allow'
                 ctx.violation(sig, f'{where}: resolve({path!r}, {verb}) real {a} fresh {b}', wit)
@@ -454,16 +499,42 @@ def compare(ctx, real, hist, tag):
         ctx.count('wsgi_probes')
         if mount:
             ctx.count('wsgi_probes_below_a_mount_point')
-        l1 = [e for e in real.log if not (e[0] == 'hook' and e[1] in real.unspec_ids)]
+        l1 = [e for e in real.log if not (e[0] in ('hook', 'scoped-404') and e[1] in real.unspec_ids)]
         l2 = list(fresh.log)
         ctx.count('hook_firings_compared', sum(1 for e in l2 if e[0] == 'hook'))
+        ctx.count('scoped_404_handler_calls_compared', sum(1 for e in l2 if e[0] == 'scoped-404'))
         if path in ('/zz', '/zz/top', '/h', '/h/z'):
             ctx.count('hook_only_prefix_probed')
-        if (r1.code, l1) != (r2.code, l2):
+        # a scoped not-found handler whose fate is unspecified (it lay under a removed prefix) answered: the status says nothing
+        unspec_answered = any(e[0] == 'scoped-404' and e[1] in real.unspec_ids for e in real.log)
+        if unspec_answered:
+            ctx.count('probes_answered_by_a_handler_of_unspecified_fate')
+        if (r1.code if not unspec_answered else r2.code, l1) != (r2.code, l2):
+            if [e for e in l1 if e[0] == 'scoped-404'] != [e for e in l2 if e[0] == 'scoped-404']:
+                ctx.violation('scoped-404-handler-calls-differ-from-fresh-app', f'{where}: GET {path}: real {r1.code} {l1}, fresh {r2.code} {l2}', wit)
+                return False
             sig = 'wsgi-status-differs-from-fresh-app' if r1.code != r2.code else (
                 'hook-firings-differ-from-fresh-app' if [e for e in l1 if e[0] == 'hook'] != [e for e in l2 if e[0] == 'hook'] else 'handler-call-differs-from-fresh-app')
             ctx.violation(sig, f'{where}: GET {path}: real {r1.code} {l1}, fresh {r2.code} {l2}', wit)
             return False
+        # scoped not-found handlers (literal prefixes): called only for paths under their prefix, with exactly that prefix;
+        # and called when theirs is the only hook position on the way of a path no route matches
+        calls = [e for e in l1 if e[0] == 'scoped-404']
+        for _, pid, prefix, _params in calls:
+            h = next((h for h, k in real.hooks404.items() if k == pid), None)
+            ctx.count('scoped_404_reference_checked')
+            if h is None or not path.startswith(h) or prefix != h:
+                ctx.violation('scoped-404-handler-called-outside-its-prefix-or-with-another-prefix', f'{where}: GET {path}: called {pid} (installed at {h}) with prefix {prefix!r}', wit)
+                return False
+        on_the_way = [h for h in set(real.hooks) | set(real.hooks404) | real.unspec if path.startswith(h.split('<')[0].rstrip('/') or '/')]
+        # (with a wildcard route beside the literal way the matcher may end its search on another branch: not judged)
+        wild_beside = any('<' in r and path.startswith(r.split('<')[0]) for r in real.routes)
+        if (len(on_the_way) == 1 and on_the_way[0] in real.hooks404 and on_the_way[0] not in real.unspec and not wild_beside
+                and not [e for e in l1 if e[0] == 'handler'] and r2.code != 405):
+            ctx.count('scoped_404_reference_checked')
+            if not calls and r1.code == 404:
+                ctx.violation('scoped-404-handler-not-called-for-an-unmatched-path-under-its-prefix', f'{where}: GET {path}: {r1.code} {l1}', wit)
+                return False
         # (b) reference from the statement, for probes that are the canonical instantiation of a surviving rule
         hs = [e for e in l1 if e[0] == 'handler']
         if r1.code == 200 and hs:
